@@ -403,6 +403,8 @@ func Families(quick bool) []*trav.Sel {
 			for _, l := range limits {
 				out = append(out, trav.Rec(l, x(trav.Un(trav.Edge(), y(trav.Edge())))))
 				out = append(out, trav.Rec(l, trav.Un(x(trav.Edge()), y(trav.M()))))
+				// two members that reach the edge over the same child, and nothing else beside them
+				out = append(out, trav.Rec(l, trav.Un(x(trav.Edge()), y(trav.Edge()))))
 			}
 			for _, z := range steps {
 				out = append(out, trav.Un(x(trav.M()), y(z(trav.M()))))
